@@ -1,5 +1,6 @@
 pub mod c10;
 pub mod c12;
+pub mod c13;
 pub mod c14;
 pub mod c15;
 pub mod c16;
@@ -199,6 +200,11 @@ pub fn run(name: &str, args: &Args) -> Option<Report> {
             guarded(&mut rep, name, "C16", seed, start, |rep| c16::run(seed, start, iters, every, rep));
         }
         "c17" => c17::run(args.seed, args.start, args.iters, &mut rep),
+        "c13" => {
+            let (seed, start, iters) = (args.seed, args.start, args.iters);
+            guarded(&mut rep, name, "C13", seed, start, |rep| c13::run(seed, start, iters, rep));
+        }
+        "c13abi" => c13::abi_sweep::run(args.seed, args.start, args.iters, &mut rep),
         "c10" => c10::run(args.seed, args.start, args.iters, &mut rep),
         "c08wrap" => {
             for i in args.start..args.start + args.iters {
